@@ -78,6 +78,12 @@ class NameKinds:
                 return SLUG
             return None
         if isinstance(expr, ast.Call):
+            # '::'.join(x.split('::')[:-1]) - the namespace part of a full name
+            if isinstance(expr.func, ast.Attribute) and expr.func.attr == 'join' and isinstance(expr.func.value, ast.Constant) and expr.func.value.value == '::' and len(expr.args) == 1:
+                a0 = expr.args[0]
+                if isinstance(a0, ast.Subscript) and isinstance(a0.slice, ast.Slice) and isinstance(a0.value, ast.Call) and isinstance(a0.value.func, ast.Attribute) and a0.value.func.attr == 'split' \
+                        and a0.value.args and isinstance(a0.value.args[0], ast.Constant) and a0.value.args[0].value == '::':
+                    return NS
             if isinstance(expr.func, ast.Attribute) and expr.func.attr == 'fullname':
                 return FULL
             if isinstance(expr.func, ast.Name) and expr.func.id == '_find_task_full_name':
@@ -97,6 +103,12 @@ class NameKinds:
         if isinstance(expr, ast.BinOp) and isinstance(expr.op, ast.Add):
             return None
         if isinstance(expr, ast.Subscript):
+            # x.split('::')[-1] - the slug part of a full name
+            if isinstance(expr.value, ast.Call) and isinstance(expr.value.func, ast.Attribute) and expr.value.func.attr == 'split' and expr.value.args \
+                    and isinstance(expr.value.args[0], ast.Constant) and expr.value.args[0].value == '::' and not isinstance(expr.slice, ast.Slice):
+                idx = expr.slice.value if isinstance(expr.slice, ast.Constant) else (-expr.slice.operand.value if isinstance(expr.slice, ast.UnaryOp) and isinstance(expr.slice.operand, ast.Constant) else None)
+                if idx == -1:
+                    return SLUG
             # element of a container of names
             ek = self.elem_kind(expr.value, func)
             if ek and not isinstance(expr.slice, ast.Slice):
@@ -235,6 +247,11 @@ def mentions_separator(expr, A: Optional[Analysis] = None, func: Optional[FuncIn
                 break
             expr = defs[0][1]
             seen += 1
+        # only a pattern that is *built around* the separator counts (f'{ns}::', ':' + cand, '{}::'.format(ns)); a name that
+        # merely was computed with the help of the separator ('::'.join(parts[:-1])) does not carry it
+        if not (isinstance(expr, (ast.JoinedStr, ast.Constant)) or (isinstance(expr, ast.BinOp) and isinstance(expr.op, (ast.Add, ast.Mod))) or
+                (isinstance(expr, ast.Call) and isinstance(expr.func, ast.Attribute) and expr.func.attr == 'format' and isinstance(expr.func.value, ast.Constant))):
+            return False
     for n in ast.walk(expr):
         if isinstance(n, ast.Constant) and isinstance(n.value, str) and ':' in n.value:
             return True
